@@ -1,5 +1,360 @@
-//! (stub)
+//! C18 — stream and file hashing fail closed under I/O faults.
+//!
+//! E-FAULT: a scripted `std::io::Read` whose answers (bytes delivered, error
+//! kind) come from a choice vector; all vectors with at most d deviations from
+//! the default answer ("fill the buffer") are run, d = 0, 1, 2.
+
 use crate::common::*;
-use serde_json::Value;
-pub fn replay(_c: &Value) -> Result<(), String> { Err("not implemented".into()) }
-pub fn run(_ctx: &Ctx) -> Report { Report::new("model_checking") }
+use crate::corpus;
+use refmodel::ctph::ctph;
+use serde_json::{json, Value};
+use ssdeep::{Generator, GeneratorError, GeneratorOrIOError};
+use std::io::{self, ErrorKind, Read};
+
+/// One environment answer.
+#[derive(Clone, Copy, Debug, PartialEq, Eq)]
+pub enum Answer {
+    /// deliver up to `n` bytes (capped by the buffer and the remaining payload)
+    Short(usize),
+    /// fail with this error kind
+    Fail(ErrorKind),
+}
+
+/// Reader delivering `payload`; read call #i follows `script[i]` if present,
+/// else the policy default (`fill` = fill the buffer, or at most `policy` bytes).
+pub struct ScriptedReader<'a> {
+    pub payload: &'a [u8],
+    pub pos: usize,
+    pub calls: usize,
+    pub policy: usize,
+    pub script: Vec<(usize, Answer)>,
+    pub delivered_log: Vec<usize>,
+    /// the error kind this reader returned (nothing is read after it by a correct caller)
+    pub failed: Option<ErrorKind>,
+    /// the reader answered Ok(0) to a non-empty buffer (end of stream was observed by the caller)
+    pub saw_eof: bool,
+    pub calls_after_end: usize,
+}
+impl<'a> ScriptedReader<'a> {
+    pub fn new(payload: &'a [u8], policy: usize, script: Vec<(usize, Answer)>) -> Self {
+        ScriptedReader { payload, pos: 0, calls: 0, policy, script, delivered_log: vec![], failed: None, saw_eof: false, calls_after_end: 0 }
+    }
+}
+impl Read for ScriptedReader<'_> {
+    fn read(&mut self, buf: &mut [u8]) -> io::Result<usize> {
+        let call = self.calls;
+        self.calls += 1;
+        if self.failed.is_some() || self.saw_eof {
+            self.calls_after_end += 1;
+        }
+        let ans = self.script.iter().find(|(i, _)| *i == call).map(|(_, a)| *a);
+        let want = match ans {
+            Some(Answer::Fail(k)) => {
+                self.failed = Some(k);
+                return Err(io::Error::new(k, "injected fault"));
+            }
+            Some(Answer::Short(n)) => n,
+            None => self.policy,
+        };
+        let n = want.min(buf.len()).min(self.payload.len() - self.pos);
+        buf[..n].copy_from_slice(&self.payload[self.pos..self.pos + n]);
+        self.pos += n;
+        self.delivered_log.push(n);
+        if n == 0 && !buf.is_empty() {
+            self.saw_eof = true;
+        }
+        Ok(n)
+    }
+}
+
+pub const KINDS: [ErrorKind; 6] =
+    [ErrorKind::Other, ErrorKind::UnexpectedEof, ErrorKind::Interrupted, ErrorKind::WouldBlock, ErrorKind::PermissionDenied, ErrorKind::TimedOut];
+
+fn kind_name(k: ErrorKind) -> String {
+    format!("{:?}", k)
+}
+fn kind_from(s: &str) -> Option<ErrorKind> {
+    KINDS.iter().copied().find(|k| kind_name(*k) == s)
+}
+
+pub fn payload(len: usize) -> Vec<u8> {
+    // deterministic, piece-rich payload: trigger words in a fixed order
+    let mut v = Vec::with_capacity(len + 7);
+    let mut k = 0usize;
+    while v.len() < len {
+        v.extend_from_slice(&corpus::W[(k * 7 + k / 3) % 12]);
+        k += 1;
+    }
+    v.truncate(len);
+    v
+}
+
+fn res_string(r: &Result<ssdeep::RawFuzzyHash, GeneratorOrIOError>) -> String {
+    match r {
+        Ok(h) => h.to_string(),
+        Err(GeneratorOrIOError::GeneratorError(e)) => format!("Err(GeneratorError({:?}))", e),
+        Err(GeneratorOrIOError::IOError(e)) => format!("Err(IOError({:?}))", e.kind()),
+    }
+}
+
+/// One execution: `declared` = None uses `hash_stream`, Some(d) the hook H2
+/// forwarder with a generator on which d was declared.
+pub fn run_one(len: usize, policy: usize, script: &[(usize, Answer)], declared: Option<u64>) -> Result<String, String> {
+    let data = payload(len);
+    let mut rd = ScriptedReader::new(&data, policy, script.to_vec());
+    let res = match declared {
+        None => guarded(|| ssdeep::hash_stream(&mut rd))?,
+        Some(d) => {
+            let mut g = Generator::new();
+            g.set_fixed_input_size(d).map_err(|e| format!("{:?}", e))?;
+            guarded(|| ssdeep::verif_hash_stream_with(&mut g, &mut rd))?
+        }
+    };
+    let got = res_string(&res);
+    // The oracle is independent of the caller's buffer size: what the reader was actually asked decides.
+    //  * the reader returned an error  => the result must be exactly that I/O error (no hash);
+    //  * otherwise the caller must have read until it saw end of stream (Ok(0)), and the result is the
+    //    hash of the bytes delivered (or the size-mismatch error when a different size was declared).
+    let failure = rd.failed;
+    let pos = rd.pos;
+    let exp = match failure {
+        Some(k) => format!("Err(IOError({:?}))", k),
+        None => {
+            if !rd.saw_eof {
+                return Err(format!(
+                    "len={} policy={} script={:?} declared={:?}: the reader was abandoned after {} of {} bytes without an error or end of stream; result {}",
+                    len, policy, script, declared, pos, len, got
+                ));
+            }
+            let delivered = &data[..pos];
+            match declared {
+                Some(d) if d != pos as u64 => format!("Err(GeneratorError({:?}))", GeneratorError::FixedSizeMismatch),
+                _ => ctph(0, delivered).map(|d| d.text_trunc()).unwrap_or_else(|_| "Err(GeneratorError(InputSizeTooLarge))".into()),
+            }
+        }
+    };
+    if got != exp {
+        return Err(format!("len={} policy={} script={:?} declared={:?}: got {} expected {}", len, policy, script, declared, got, exp));
+    }
+    Ok(if failure.is_some() { "io-error".into() } else if exp.starts_with("Err") { "generator-error".into() } else { "hash".into() })
+}
+
+fn ans_json(a: &(usize, Answer)) -> Value {
+    match a.1 {
+        Answer::Short(n) => json!({"read": a.0, "short": n}),
+        Answer::Fail(k) => json!({"read": a.0, "fail": kind_name(k)}),
+    }
+}
+fn case(len: usize, policy: usize, script: &[(usize, Answer)], declared: Option<u64>) -> Value {
+    json!({"kind":"reader","len":len,"policy":policy,"script":script.iter().map(ans_json).collect::<Vec<_>>(),"declared":declared})
+}
+
+fn file_case(kind: &str, dir: &std::path::Path) -> Result<String, String> {
+    let r = |p: &std::path::Path| guarded(|| ssdeep::hash_file(p)).map(|r| res_string(&r));
+    match kind {
+        "missing" => {
+            let got = r(&dir.join("does-not-exist"))?;
+            if got != "Err(IOError(NotFound))" {
+                return Err(format!("missing file gives {}", got));
+            }
+            Ok("io-error".into())
+        }
+        "directory" => {
+            let got = r(dir)?;
+            if !got.starts_with("Err(") {
+                return Err(format!("a directory gives {}", got));
+            }
+            Ok("error".into())
+        }
+        "dev-null" => {
+            let got = r(std::path::Path::new("/dev/null"))?;
+            if got != "3::" {
+                return Err(format!("/dev/null gives {}", got));
+            }
+            Ok("hash".into())
+        }
+        k if k.starts_with("proc:") => {
+            // metadata size 0, content non-empty: must be an error, never a hash
+            let p = std::path::Path::new(&k[5..]);
+            let content = std::fs::read(p).map_err(|e| format!("cannot read {}: {} (environment)", p.display(), e));
+            let meta = std::fs::metadata(p).map(|m| m.len());
+            match (content, meta) {
+                (Ok(c), Ok(m)) if c.len() as u64 != m => {
+                    let got = r(p)?;
+                    if !got.starts_with("Err(") {
+                        return Err(format!("{} (metadata size {}, content {} bytes) gives {}", p.display(), m, c.len(), got));
+                    }
+                    Ok("size-mismatch-error".into())
+                }
+                _ => Ok("not-applicable-here".into()),
+            }
+        }
+        k if k.starts_with("file:") => {
+            let len: usize = k[5..].parse().map_err(|_| "len")?;
+            let data = payload(len);
+            let p = dir.join(format!("payload-{}.bin", len));
+            std::fs::write(&p, &data).map_err(|e| format!("cannot write scratch file: {}", e))?;
+            let got = r(&p)?;
+            let exp = ctph(0, &data).map(|d| d.text_trunc()).map_err(|_| "ref")?;
+            let _ = std::fs::remove_file(&p);
+            if got != exp {
+                return Err(format!("hash_file of a {}-byte file gives {} expected {}", len, got, exp));
+            }
+            Ok("hash".into())
+        }
+        _ => Err("bad file case".into()),
+    }
+}
+
+pub fn replay(c: &Value) -> Result<(), String> {
+    match c["kind"].as_str() {
+        Some("reader") => {
+            let len = c["len"].as_u64().ok_or("len")? as usize;
+            let policy = c["policy"].as_u64().ok_or("policy")? as usize;
+            let mut script = vec![];
+            for a in c["script"].as_array().ok_or("script")? {
+                let i = a["read"].as_u64().ok_or("read")? as usize;
+                if let Some(n) = a["short"].as_u64() {
+                    script.push((i, Answer::Short(n as usize)));
+                } else {
+                    script.push((i, Answer::Fail(a["fail"].as_str().and_then(kind_from).ok_or("kind")?)));
+                }
+            }
+            run_one(len, policy, &script, c["declared"].as_u64()).map(|_| ())
+        }
+        Some("file") => {
+            let dir = std::path::PathBuf::from("/verif/.build/c18-scratch");
+            std::fs::create_dir_all(&dir).map_err(|e| e.to_string())?;
+            file_case(c["file"].as_str().ok_or("file")?, &dir).map(|_| ())
+        }
+        _ => Err("bad case".into()),
+    }
+}
+
+/// All scripts with at most `d` deviations over the first `reads` read calls.
+pub fn scripts(reads: usize, shorts: &[usize], kinds: &[ErrorKind], d: usize) -> Vec<Vec<(usize, Answer)>> {
+    let mut answers: Vec<Answer> = shorts.iter().map(|&n| Answer::Short(n)).collect();
+    answers.extend(kinds.iter().map(|&k| Answer::Fail(k)));
+    let mut out: Vec<Vec<(usize, Answer)>> = vec![vec![]];
+    if d >= 1 {
+        for i in 0..reads {
+            for &a in &answers {
+                out.push(vec![(i, a)]);
+            }
+        }
+    }
+    if d >= 2 {
+        for i in 0..reads {
+            for j in (i + 1)..reads {
+                for &a in &answers {
+                    if matches!(a, Answer::Fail(_)) {
+                        continue; // nothing is read after a failure
+                    }
+                    for &b in &answers {
+                        out.push(vec![(i, a), (j, b)]);
+                    }
+                }
+            }
+        }
+    }
+    out
+}
+
+pub fn run(ctx: &Ctx) -> Report {
+    let mut rep = Report::new("fault_enumeration");
+    let thorough = ctx.tier == Tier::Thorough;
+    let lens: Vec<usize> = vec![0, 1, 100, 32767, 32768, 32769, 70000];
+    let policies: Vec<usize> = vec![usize::MAX, 1, 7, 4096, 32768];
+    // (a) + (b): every script with <= 2 deviations under each read policy
+    let mut jobs: Vec<(usize, usize, Vec<(usize, Answer)>, Option<u64>)> = vec![];
+    for &len in &lens {
+        for &policy in &policies {
+            // number of read calls under the default policy (plus the terminating zero read)
+            let per = policy.min(32768);
+            let nreads_full = len / per + 2;
+            // for byte-at-a-time policies on large payloads only the first and last reads are scripted
+            let reads: Vec<usize> = if nreads_full <= 8 {
+                (0..nreads_full).collect()
+            } else {
+                let mut v: Vec<usize> = (0..3).collect();
+                v.extend([nreads_full / 2, nreads_full - 3, nreads_full - 2, nreads_full - 1]);
+                v
+            };
+            if policy <= 7 && len > 1000 && !thorough {
+                // byte-at-a-time over 32 KiB is slow; quick keeps single deviations only
+                for &i in &reads {
+                    for &k in &KINDS {
+                        jobs.push((len, policy, vec![(i, Answer::Fail(k))], None));
+                    }
+                    jobs.push((len, policy, vec![(i, Answer::Short(3))], None));
+                }
+                jobs.push((len, policy, vec![], None));
+                continue;
+            }
+            let shorts = [1usize, 6, 7, 4095, 32767];
+            let base = scripts(reads.len(), &shorts, &KINDS, 2);
+            for s in base {
+                let mapped: Vec<(usize, Answer)> = s.iter().map(|(i, a)| (reads[*i], *a)).collect();
+                jobs.push((len, policy, mapped, None));
+            }
+        }
+    }
+    // (c) declared sizes through hook H2
+    for &len in &lens {
+        for d in [len.saturating_sub(1) as u64, len as u64, len as u64 + 1, 0] {
+            for s in scripts(3, &[1, 7, 32767], &[ErrorKind::Other, ErrorKind::Interrupted], 1) {
+                jobs.push((len, usize::MAX, s, Some(d)));
+            }
+        }
+    }
+    // zero-length short read in the middle = end of stream for the caller: hash of the prefix (documented Read semantics)
+    jobs.push((70000, usize::MAX, vec![(1, Answer::Short(0))], None));
+    jobs.push((70000, usize::MAX, vec![(1, Answer::Short(0))], Some(70000)));
+    jobs.sort_by(|a, b| format!("{:?}", a).cmp(&format!("{:?}", b)));
+    jobs.dedup_by(|a, b| format!("{:?}", a) == format!("{:?}", b));
+    let acc = par_shards(jobs.len(), |i, acc| {
+        let (len, policy, script, declared) = &jobs[i];
+        acc.evaluations += 1;
+        if !script.is_empty() {
+            acc.nontrivial += 1;
+        }
+        acc.count(&format!("deviations={}", script.len()), 1);
+        match run_one(*len, *policy, script, *declared) {
+            Ok(o) => acc.bump(&o),
+            Err(e) => acc.violation(
+                format!("reader len={} policy={} script={:?} declared={:?}", len, policy, script, declared),
+                e,
+                case(*len, *policy, script, *declared),
+            ),
+        }
+        if i % 5000 == 17 {
+            acc.sample(case(*len, *policy, script, *declared));
+        }
+    });
+    acc.into_report(&mut rep, "scripted_reader_up_to_2_deviations");
+    // (d) real files
+    let dir = ctx.verif_dir.join(".build").join("c18-scratch");
+    let _ = std::fs::create_dir_all(&dir);
+    let mut files: Vec<String> = vec!["missing".into(), "directory".into(), "dev-null".into(), "proc:/proc/self/status".into(), "proc:/proc/self/cmdline".into(), "proc:/proc/self/maps".into()];
+    for &l in &lens {
+        files.push(format!("file:{}", l));
+    }
+    let mut acc = Acc::default();
+    for f in &files {
+        acc.evaluations += 1;
+        acc.nontrivial += 1;
+        match file_case(f, &dir) {
+            Ok(o) => acc.bump(&o),
+            Err(e) => acc.violation(format!("file {}", f), e, json!({"kind":"file","file":f})),
+        }
+    }
+    acc.sample(json!({"kind":"file","file":"proc:/proc/self/status"}));
+    acc.into_report(&mut rep, "real_files");
+    rep.set("exhaustive", true);
+    rep.set(
+        "rule",
+        "payloads of length {0,1,100,32767,32768,32769,70000} (trigger-word content) x read policies {fill, 1, 7, 4096, 32768 bytes per read} x every script with <= 2 deviations over the read calls (deviation = a short read of {1,6,7,4095,32767} bytes or a failure with kind {Other, UnexpectedEof, Interrupted, WouldBlock, PermissionDenied, TimedOut}); a failure must come back as that I/O error and no hash, short reads must give the hash of the delivered bytes; through hook H2 with declared size {len-1,len,len+1,0}: Ok iff the declared size equals the delivered bytes, faults still win; real files: regular files of each length, missing path, directory, procfs entries whose metadata size disagrees with their content, /dev/null.  A case is one (payload, policy, script, declared) execution; non-trivial = at least one deviation.",
+    );
+    rep.assume("std::io::Read semantics: Ok(0) is end of stream; the reader loop uses a 32 KiB buffer (the model replays the script against that size)");
+    rep
+}
